@@ -23,7 +23,7 @@ DECIDING = ['probe_points_fixed', 'probe_points_adaptive', 'euler_rows_compared'
 ASSUMPTIONS = ['delayed variables are state variables of the operator that uses them', 'constant pre-history = declared initial state',
                'adaptive runs: PyRates records accepted steps only, its linear interpolation error is tolerated (2e-3 relative)']
 CASE_TIMEOUT = 300
-FOCUS = ['delayed_edge_adaptive', 'negative_coefficient_on_past']
+FOCUS = ['delayed_edge_adaptive', 'negative_coefficient_on_past', 'edge_delay_exactly_one']
 
 
 def plan(tier, seed):
@@ -40,6 +40,7 @@ def plan(tier, seed):
         fam = 'probe:' + feat if feat in opened else 'main'
         cases += [{'family': fam, 'cseed': rnd.randrange(1 << 30), 'want': feat,
                    'mode': rnd.choice(['probe_adaptive', 'scipy']) if feat == 'delayed_edge_adaptive' else
+                   'probe_adaptive' if feat == 'edge_delay_exactly_one' else
                    rnd.choice(['probe_fixed', 'probe_adaptive', 'euler'])} for _ in range(k)]
     return cases
 
@@ -58,7 +59,7 @@ def gen_dde(rnd, want=None):
     """small DDE spec: 1-2 nodes, each with one operator with 2-3 state variables, delayed terms on some."""
     vals = gen.Vals(rnd)
     ops, nts, nodes = {}, {}, {}
-    n_nodes = rnd.choice([1, 1, 2])
+    n_nodes = rnd.choice([1, 1, 2]) if want not in ('delayed_edge_adaptive', 'edge_delay_exactly_one') else 2
     style = rnd.choice(['past', 't-'])
     n_delays_total = 0
     nonfirst = False
@@ -110,11 +111,13 @@ def gen_dde(rnd, want=None):
         nts[f'nt{ni}'] = {'ops': [opn], 'over': {}}
         nodes[f'n{ni}'] = f'nt{ni}'
     edges = []
-    if n_nodes == 2 and (want == 'delayed_edge_adaptive' or rnd.random() < 0.5):
+    if n_nodes == 2 and (want in ('delayed_edge_adaptive', 'edge_delay_exactly_one') or rnd.random() < 0.5):
         s_out = [v for v, d in ops['dde_op0']['vars'].items() if d[0] == 'out'][0]
         a = {'weight': round(vals.new() * 2, 4)}
         if want == 'delayed_edge_adaptive':
             a['delay'] = round(rnd.uniform(0.004, 0.03), 4)
+        if want == 'edge_delay_exactly_one':
+            a['delay'] = 1.0     # the value that PyRates also uses internally as its "no delay" marker
         edges.append(['n0/dde_op0/' + s_out, 'n1/dde_op1/u', None, a])
     spec = {'ops': ops, 'node_types': nts, 'edge_types': {}, 'circ': {'name': 'c', 'nodes': nodes, 'subs': {}, 'edges': edges}}
     info = {'style': style, 'n_delays': n_delays_total, 'nonfirst': nonfirst, 'neg': bool(flags.get('neg'))}
@@ -210,6 +213,8 @@ def run_case(case, ctx):
     ref = RefModel(spec)
     if any(e['delay'] for e in ref.edges):
         risk.append('delayed_edge_adaptive')
+    if any(e['delay'] and float(e['delay']) == 1.0 for e in ref.edges):
+        risk.append('edge_delay_exactly_one')
     if info.get('neg'):
         risk.append('negative_coefficient_on_past')
     res = {'features': [mode, info['style'], f"delays{min(info['n_delays'], 4)}"], 'risk': risk,
